@@ -10,7 +10,8 @@
     parts: '|'-separated, each a sequence of r<hh> / e<hh>; '-' = empty part
 
   and the check that ties the specification to the model: what the sentence denotes (`cells`) is
-  what the model scans from the given text and from the specification's own rendering.
+  what the model scans from the given text and from the specification's own renderings (without
+  any insertion, and with comments directly behind the values).
 -/
 import RtoscModel.Pretty.C11Spec
 import RtoscModel.Pretty.C11Model
@@ -171,6 +172,11 @@ def sentence (s : String) : Option Sentence :=
 
 def L0 : Layout := { lead := [], sep := fun _ => [], trail := [], last := none, blank := fun _ => [] }
 
+/-- comments directly behind every value, white space mixed in at every third one -/
+def L1 : Layout :=
+  { lead := [.comment [108]], sep := fun i => if i % 3 = 2 then [.ws .nl, .comment [], .ws .tab] else [.comment [99, 32, 49]],
+    trail := [], last := some [101], blank := fun _ => [] }
+
 def reads (text : Bytes) (cs : List Cell) : Bool :=
   (match C11.countPrintedArgVals text with | .ok n => n == (cs.length : Int) | .error _ => false) &&
   (match C11.scanArgVals text cs.length with | .ok (rd, got) => rd == text.length && got == cs | .error _ => false)
@@ -187,6 +193,9 @@ def check (enc : String) (text : Bytes) : String :=
       | none => " SPEC-NONE"
       | some cs =>
         (if reads text cs then "" else " SPEC-MISMATCH:text") ++
-        (if reads (render s L0) cs then "" else " SPEC-MISMATCH:render")
+        (if reads (render s L0) cs then "" else " SPEC-MISMATCH:render") ++
+        -- the same sentence with comments directly behind the values (known finding C11-K2: not
+        -- behind a numeric literal)
+        (if hasNumPercent s L1 || reads (render s L1) cs then "" else " SPEC-MISMATCH:render-tight")
 
 end Driver.ScanSentence
